@@ -13,17 +13,19 @@
    The two generate_* functions take the list of method ids (the Python ones take signatures and
    hash them first with method_id_int; hashing is outside the model). *)
 From Coq Require Import ZArith List Bool.
+From Verif Require Import C07.GenConsts.   (* module constants, regenerated from the source on every run *)
 Import ListNotations.
 Open Scope Z_scope.
 
-Inductive jerr : Set := HasEmptyBuckets | FindMagicFailure | JRuntimeError | JZeroDivision | JOutOfFuel | JValueError.
+Inductive jerr : Set :=
+  HasEmptyBuckets | FindMagicFailure | JRuntimeError | JZeroDivision | JOutOfFuel | JValueError | JKeyError.
 Inductive jres (A : Type) : Type := JOk (a : A) | JErr (e : jerr).
 Arguments JOk {A} _.
 Arguments JErr {A} _.
 
-Definition BITS_MAGIC : Z := 24.
+Definition BITS_MAGIC : Z := g_BITS_MAGIC.
 Definition MAGIC_RANGE : Z := 65536.   (* range(2**16) *)
-Definition START_BUCKET_SIZE : Z := 5.
+Definition START_BUCKET_SIZE : Z := g_START_BUCKET_SIZE.
 
 Definition zlen {A} (l : list A) : Z := Z.of_nat (length l).
 
